@@ -146,6 +146,106 @@ CHECKS = {
    technique="Lean 4 proof (round trip over all shapes) about the loader spec regenerated from the source + numpy "
              "shape-rule contract validation + real-file correspondence",
    ref="DESIGN.md §4 C06"),
+ "C19": dict(
+   text="Lean theorems over the ModelData / GaussianProcess model: exact standardise/normalise round trips (sigma != 0, "
+        "max != min), zero mean and unit variance after standardising, variance zero iff constant, the alignment "
+        "invariant (rows of training = responses) under append / subset / duplicate removal acting on the same row "
+        "indices, the retained-point scan is sound (no two survivors within the cut-off), minimal (every removed point "
+        "is near an earlier retained one) and keeps the first; negation witnesses for the original scan; the update "
+        "cycle invariant by induction over any add_data / lowest_point sequence for all four flag combinations. The "
+        "scan variant, the eight formulas (with symbolic inverse lemma) and the call order of the GaussianProcess "
+        "methods are regenerated from the source; real ModelData / GaussianProcess (sklearn fit bypassed from outside) "
+        "against the exact-rational model.",
+   note="theorems exact, floats compared to 1e-9; sigma is a parameter checked against the exact variance on every run; "
+        "sigma = 0 is the excluded guard (the code yields NaN there, reported as an observation).",
+   technique="Lean 4 proof (algebraic laws, scan invariants, update-cycle induction) + regenerated formulas/scan/call order "
+             "with bridge lemmas + differential correspondence at exact rationals",
+   ref="DESIGN.md §4 C19"),
+ "C10": dict(
+   text="The call record of lbfgs.minimise (which wrapper parameter reaches which scipy keyword, literals, the args "
+        "default, the returned triple) is regenerated from the source and proved equal to the expected wiring; under "
+        "the named contract LBFGSB the wrapper satisfies the property's clauses (in box, reported value = objective "
+        "there, not higher than at the start, projected gradient below tolerance on the pgtol exit, args passed "
+        "unchanged); projected-gradient lemmas. The contract itself is validated on real minimisations over many "
+        "objectives / boxes / tolerances, and a recorder patched in from outside checks every forwarded keyword.",
+   note="PARTIAL, stated plainly: nothing is proved about scipy's compiled L-BFGS-B; its contract is sampled on every run.",
+   technique="Lean 4 proof of the wiring refinement and the derivation from the contract + regenerated call record; "
+             "optimiser behaviour as a validated oracle contract",
+   ref="DESIGN.md §4 C10"),
+ "C03": dict(
+   text="Lean theorems: test_same is symmetric and (for positive criteria) reflexive in absolute and box-proportional "
+        "mode over every ordered field, with the exact behaviour at the criterion (< versus <= 1) and the sqrt "
+        "contract; for ANY symmetric match relation and ANY stream of minimum offers, TS offers, merges and resets the "
+        "gate keeps the store coherent, stored minima and stored TSs pairwise non-matching (replacement included), a "
+        "matching candidate adds nothing, a non-matching one is stored, offered minima stay represented. The test_same "
+        "kernels and the statement order of test_new_ts are regenerated from the source (bridge lemmas; the pre-repair "
+        "order is a proved counter-example); the real classes are compared with the model after every offer on dyadic, "
+        "at-criterion, float and atomic streams (the atomic relation's answers enter as oracle answers).",
+   note="symmetry/reflexivity of the atomic relation depend on the alignment heuristic (C11): assumed, sampled per run; "
+        "IEEE rounding only observed (near-ties skipped).",
+   technique="Lean 4 proof (relation laws + stream invariant for any symmetric relation) + regenerated kernel bridge + "
+             "differential correspondence",
+   ref="DESIGN.md §4 C03"),
+ "C05": dict(
+   text="Lean theorems over the merge model: a failed search is a no-op anywhere in a round, a repeated TS is a no-op, "
+        "serial and parallel rounds are the same fold up to the check_pair mask and never remove or renumber (node "
+        "prefix, history prefix, connected pairs stay connected, a pair's TS changes only to one found this round), "
+        "each successful non-repeated record contributes its TS on an edge whose endpoints match its two minima and the "
+        "pair persists, reconvergence = reset + fold with failures skipped and never aborts (negation for the missing "
+        "filter). None-filters, argument wiring and statement order regenerated from the source; the real "
+        "run_connection_attempts (serial and multiprocessing) and reconverge_landscape with scripted searches, every "
+        "failure subset of <= 4/6 searches.",
+   note="Pool.map order and check_pair are parameters (C14 / C13); 'carries the last such record's TS' is proved as 'this "
+        "record's or a later record's'.",
+   technique="Lean 4 proof (fold / monotonicity lemmas) + regenerated filter/wiring bridge + scripted fault-subset "
+             "correspondence",
+   ref="DESIGN.md §4 C05"),
+ "C04": dict(
+   text="Lean theorems over the generic model of HybridEigenvectorFollowing: the convergence test holds iff every "
+        "coordinate not pinned at an active bound has |gradient| below tolerance, for every dimension and pinning "
+        "pattern (numpy's index-set masking modelled with the reduction axis as a parameter; negation witnesses for "
+        "axis 0); the validity test refuses iff zero vector / NaN / eigenvalue 0 / every coordinate pinned, with a "
+        "reason; clip and local-bounds lemmas; push-off accepted only when the energy drops; by induction over the run "
+        "skeleton: every failure return carries a reason and no data, every success return is in the box, passed the "
+        "test against its own mask, reports energies equal to the surface at the returned points, and has both minima "
+        "below the TS unless the push-off flag is set. Axes, operators, constants and reason order are regenerated from "
+        "the source (bridge lemmas); pure kernels on all 3^d pinning patterns, the real run with scripted "
+        "sub-procedures, and traced real searches on surfaces with saddles in the interior, on faces and on edges.",
+   note="LBFGSB (in box, f-value, monotone), sqrt/norm and determinism of the potential are oracle contracts validated "
+        "per traced call; convergence of the iteration and finiteness are observed, not proved.",
+   technique="Lean 4 proof (induction over the search skeleton, list-level mask semantics) + regenerated kernel bridge + "
+             "scripted and trace-driven correspondence",
+   ref="DESIGN.md §4 C04"),
+ "C15": dict(
+   text="Lean theorems: the direction handed on is +-v with non-negative overlap with the gradient for every (v, g) "
+        "under the regenerated overlap rule (negation witness for the original first-component rule); projection gives "
+        "a unit vector with outward components zeroed and the others positively scaled under the explicit guard that "
+        "some component survives (the all-zeroed case is characterised); Rayleigh-Ritz value = v^T A v / v^T v and "
+        "gradient 2(Au - fu), vanishing iff u is an eigenvector, for quadratic surfaces in any dimension. Flip rule "
+        "and sign tests regenerated from the source; correspondence on dyadic vectors x all pinning patterns, dyadic "
+        "quadratics and traced eigen-solver calls; predicate against dense numpy eigh in dimensions 2-6.",
+   note="global convergence of L-BFGS-B on the Rayleigh quotient and finite-difference accuracy on non-quadratic "
+        "surfaces are numerical (checked against eigh on every run).",
+   technique="Lean 4 proof (ordered-field list algebra) + regenerated kernel bridge + differential correspondence + eigh "
+             "reference predicate",
+   ref="DESIGN.md §4 C15"),
+ "C09": dict(
+   text="Lean theorems over a generic-field model of NudgedElasticBand (all dimensions, surfaces, densities, retry counts, "
+        "histories): 10 <= n <= max; the straight-line band begins at x1, ends at x2 and stays in the box (convexity); "
+        "the end rows of the band gradient are identically zero, hence (LBFGSB contract) ends fixed and all images in "
+        "the box; candidates iff interior and not exceeded by either neighbour, ascending, positions = rows; interior "
+        "row = spring row + perpendicular part of the true gradient, orthogonal to the unit-or-zero upwind tangent; "
+        "spring row = coefficient x tangent with |coefficient| = k|d_prev - d_next|; no residue (density restored, "
+        "outputs depend only on configuration and arguments, for every history). Kernels (clamp, retry "
+        "factor/guards/order, candidate test and range, tangent chain, cut-off, end-row structure, sign literals) "
+        "regenerated with bridge lemmas; exact-rational comparison of interpolation sequences, tangents, band gradient, "
+        "candidates and trace-driven run sequences through the real L-BFGS-B.",
+   note="The spring-direction clause is false of the code as written (known finding spring-sign:band_function_gradient): "
+        "proved up to the sign literal read from the source, negation proved for the coded sign, clause proved for the "
+        "repaired literal. L-BFGS-B behaviour is an oracle contract validated per run; dihedral interpolation: clamp only.",
+   technique="Lean 4 proof (generic ordered-field model, invariants over call histories) + regenerated kernels with bridge "
+             "lemmas + exact-rational differential correspondence",
+   ref="DESIGN.md §4 C09"),
 }
 
 NOT_YET = {}
